@@ -51,7 +51,7 @@ Fixpoint distinct_names (l : list string) : bool :=
 
 (* heuristic 3 of full_simplify: every group target it constructs has integer exponents *)
 Definition h3_ints_b (tbl : table Qc) (res : resolved (T := Qc)) (keys : list skey) (gs : list (list ufactor)) : bool :=
-  forallb (fun g => match h3_group QcN tbl res keys g with Ok (t, _) => unit_int t | Err _ => true end) gs.
+  forallb (fun g => match h3_group QcN tbl res keys g with Ok (Some (t, _)) => unit_int t | _ => true end) gs.
 
 (* ---------------------------------------------------------------- printing *)
 Definition show_pfx (p : prefix) : string :=
@@ -140,6 +140,11 @@ Section Run.
     guard [q_unit a; u] (show_qres E (Q2Qc tol) (Q2Qc impl) (convert_to QcN tbl res keys a u)).
   Definition r_vmconv (tol impl : Q) (a b : quantity) : string :=
     guard [q_unit a; q_unit b] (show_qres E (Q2Qc tol) (Q2Qc impl) (vm_convert QcN tbl res keys a b)).
+  (* a chain of two explicit conversions  a -> b -> c *)
+  Definition r_vmconv2 (tol impl : Q) (a b c : quantity) : string :=
+    guard [q_unit a; q_unit b; q_unit c]
+          (show_qres E (Q2Qc tol) (Q2Qc impl)
+                     (bind (vm_convert QcN tbl res keys a b) (fun q => vm_convert QcN tbl res keys q c))).
   Definition r_add (tol impl : Q) (a b : quantity) : string :=
     guard [q_unit a; q_unit b] (show_qres E (Q2Qc tol) (Q2Qc impl) (qadd QcN tbl res keys a b)).
   Definition r_sub (tol impl : Q) (a b : quantity) : string :=
@@ -159,6 +164,20 @@ Section Run.
       | Err e => guard [q_unit a] (show_err e)
       end
     else "OOS".
+  (* what the interpreter displays for an expression statement: eval, then full_simplify
+     (the registry step may still rewrite the unit; the driver accounts for that) *)
+  Definition r_evalsimp (tol impl : Q) (e : expr) : string :=
+    guard (expr_units e)
+          (match eval QcN tbl res keys e with
+           | Ok q =>
+               if h3_ints_b tbl res keys (chunk_by_key keys (canon keys (q_unit q))) then
+                 match full_simplify QcN tbl res keys q with
+                 | Ok s => if unit_int (q_unit s) then show_qvu E (Q2Qc tol) (Q2Qc impl) s else "OOS"
+                 | Err er => show_err er
+                 end
+               else "OOS"
+           | Err er => show_err er
+           end).
   Definition r_base (tol impl : Q) (u : unit) : string :=
     guard [u] (let '(b, f) := to_base QcN tbl res u in
                (if close (Q2Qc tol) f (Q2Qc impl) then "ok" else "val=" ++ show_qc f) ++ ":" ++ show_unit E b).
